@@ -777,6 +777,7 @@ func decl4names(c *Ctx, fn *ssa.Function) {
 		st     *ssa.Store
 		prefix ssa.Value
 		elem   ssa.Value
+		at     *ssa.BasicBlock // where the conditions under which this value is stored are read off
 	}
 	var stores []nameStore
 	ir.Instrs(fn, func(in ssa.Instruction) {
@@ -789,22 +790,36 @@ func decl4names(c *Ctx, fn *ssa.Function) {
 			problems = append(problems, "store is not to names[i] of the loop over all names")
 			return
 		}
-		bo, isBo := st.Val.(*ssa.BinOp)
-		if !isBo || bo.Op != token.ADD {
-			problems = append(problems, "stored name is not prefix + name")
-			return
+		// the stored value, or each value a result variable can carry into the store
+		type cand struct {
+			v  ssa.Value
+			at *ssa.BasicBlock
 		}
-		el, isEl := rangeElem(bo.Y)
-		if !isEl || el != ssa.Value(fieldsCall) {
-			problems = append(problems, "stored name does not end in the original name")
-			return
-		}
-		if y, isLd := bo.Y.(*ssa.UnOp); isLd {
-			if yia, ok := y.X.(*ssa.IndexAddr); ok && yia.Index != ia.Index {
-				problems = append(problems, "stored at an index other than the one read")
+		cands := []cand{{st.Val, st.Block()}}
+		if phi, isPhi := st.Val.(*ssa.Phi); isPhi {
+			cands = nil
+			for _, lf := range flattenPhi(phi) {
+				cands = append(cands, cand{lf.v, lf.pred})
 			}
 		}
-		stores = append(stores, nameStore{st, bo.X, bo.Y})
+		for _, cd := range cands {
+			bo, isBo := cd.v.(*ssa.BinOp)
+			if !isBo || bo.Op != token.ADD {
+				problems = append(problems, "stored name is not prefix + name")
+				return
+			}
+			el, isEl := rangeElem(bo.Y)
+			if !isEl || el != ssa.Value(fieldsCall) {
+				problems = append(problems, "stored name does not end in the original name")
+				return
+			}
+			if y, isLd := bo.Y.(*ssa.UnOp); isLd {
+				if yia, ok := y.X.(*ssa.IndexAddr); ok && yia.Index != ia.Index {
+					problems = append(problems, "stored at an index other than the one read")
+				}
+			}
+			stores = append(stores, nameStore{st, bo.X, bo.Y, cd.at})
+		}
 	})
 	if len(stores) == 0 {
 		problems = append(problems, "names are never rewritten")
@@ -814,7 +829,7 @@ func decl4names(c *Ctx, fn *ssa.Function) {
 		var got []string
 		for _, ns := range stores {
 			applies := true
-			for _, cd := range ir.DominatingConds(ns.st.Block()) {
+			for _, cd := range ir.DominatingConds(ns.at) {
 				if t, ok := evalLenCond(cd.V, ns.elem, n); ok && t != cd.Want {
 					applies = false
 				}
